@@ -2,6 +2,8 @@
 
 package reftable
 
+import "io/ioutil"
+
 // C17: auto-compaction segment choice and stack depth.
 
 func specBitLen(v uint64) int {
@@ -192,4 +194,62 @@ func Harness_C17_writer() {
 		}
 	}
 	VerifCover("done")
+}
+
+// Harness_C17_sizes: the size class AutoCompact works with is that of a table's payload (everything but file header and footer, plus one), for both hash functions: two adjacent tables are merged exactly when those classes are equal.
+// bounds: real stacks of 2 unaligned tables, sha1 and sha256; the lower table holds a value ref and a symbolic ref whose target length sweeps 48 values, so that its payload crosses a power-of-two boundary next to a table just above it; classes computed by the harness from the file sizes
+// covers: merged, kept
+func Harness_C17_sizes() {
+	cfg := stackCfg(VerifChoose(2))
+	cfg.Unaligned = true
+	hs := hsOf(cfg)
+	dir := VerifTempDir()
+	st := mustOpen(dir, cfg, "open")
+	if st == nil {
+		return
+	}
+	st.disableAutoCompact = true
+	L := 30 + VerifIntRange(0, 47)
+	addTwo := func(k byte, targetLen int) error {
+		return st.Add(func(w *Writer) error {
+			ui := st.NextUpdateIndex()
+			w.SetLimits(ui, ui)
+			if err := w.AddRef(&RefRecord{RefName: "r" + string([]byte{'a' + k}), UpdateIndex: ui, Value: hashWith(hs, k, 1)}); err != nil {
+				return err
+			}
+			t := make([]byte, targetLen)
+			for i := range t {
+				t[i] = 'x'
+			}
+			return w.AddRef(&RefRecord{RefName: "s" + string([]byte{'a' + k}), UpdateIndex: ui, Target: string(t)})
+		})
+	}
+	VerifAssert(addTwo(0, L) == nil, "add-lower")
+	VerifAssert(addTwo(1, 82) == nil, "add-upper")
+	// payload sizes from the files themselves
+	version := 1
+	if cfg.HashID == SHA256ID {
+		version = 2
+	}
+	var cls []int
+	VerifQuiet(func() {
+		for _, r := range st.stack {
+			data, err := ioutil.ReadFile(dir + "/" + r.Name())
+			VerifAssert(err == nil, "read-table-file")
+			payload := uint64(len(data) - headerSize(version) - footerSize(version))
+			cls = append(cls, specBitLen(payload+1)-1)
+		}
+	})
+	VerifAssert(len(cls) == 2, "two-tables")
+	if len(cls) != 2 {
+		return
+	}
+	VerifAssert(st.AutoCompact() == nil, "autocompact-error")
+	if cls[0] == cls[1] {
+		VerifAssert(len(st.stack) == 1, "same-class-tables-not-merged")
+		VerifCover("merged")
+	} else {
+		VerifAssert(len(st.stack) == 2, "tables-of-different-classes-merged")
+		VerifCover("kept")
+	}
 }
